@@ -17,6 +17,8 @@ RULE = ("Cases = symmetric matrices (binary / positive / signed weights incl. +-
         "Oracle = BFS components of the symmetric support. Non-trivial = the graph has 2 <= m < n components and a "
         "component with >= 3 nodes (or, for rejection cases, the matrix is genuinely asymmetric); distinct by hash of the matrix.")
 BOUNDS = {"exhaustive_quick": "graphs n<=5", "exhaustive_thorough": "graphs n<=7", "random_n": "2..40"}
+# units additionally driven by libFuzzer coverage feedback through hypothesis.fuzz_one_input (bctverif/fuzz.py)
+FUZZ_UNITS = {"quick": ["random-n<=14"], "thorough": ["random-n<=14"]}
 MIN_NONTRIVIAL = {"quick": 200, "thorough": 2000}
 
 
